@@ -55,7 +55,7 @@ type c19Plan struct {
 
 type c19Outcome struct {
 	lastDur time.Duration // how long the last answered request took
-	phase   string // "" = all phases done
+	phase   string        // "" = all phases done
 	err     string
 	guid0   protocol.GUID
 	guid1   protocol.GUID
